@@ -15,6 +15,20 @@ PROPS = {
         'assumptions': ['prophyc text -> generated class mapping (python generator + exec): bounded stand-in only'],
         'level': 'proof',
     },
+    'C02': {
+        'modules': ['contracts.c02_decode', 'contracts.c04_runtime'],
+        'standins': ['py_codec'],
+        'trusted': PYVC_TRUST + ['struct.unpack inverts struct.pack (CPython struct module): trusted leaf'],
+        'assumptions': ['arrays counted by a sizer round-trip only up to 65536 elements (documented guard)'],
+        'level': 'proof',
+    },
+    'C06': {
+        'modules': ['contracts.c02_decode'],
+        'standins': ['py_fuzz'],
+        'trusted': PYVC_TRUST + ['struct.unpack raises struct.error only on a length mismatch'],
+        'assumptions': [],
+        'level': 'proof',
+    },
     'C19': {
         'modules': ['contracts.c01_encode', 'contracts.c04_runtime'],
         'standins': ['py_codec'],
